@@ -63,6 +63,10 @@ func zzhForeignPackage(body string) (names []string, parts map[string][]byte, do
 	}
 	if zzvBool() {
 		addRel(zzhRelHyperlink, "https://example.org/a?b=c", "External")
+		if zzvBool() {
+			// a second relationship of the same type to the same target (two links to one address)
+			addRel(zzhRelHyperlink, "https://example.org/a?b=c", "External")
+		}
 	}
 	ct += `</Types>`
 	parts["[Content_Types].xml"] = []byte(ct)
